@@ -16,6 +16,9 @@ class Boom(Exception):
     pass
 
 
+OTHER_ERRORS = [Boom]        # main() adds the client's own error classes that say "your request was wrong", not "the server failed"
+
+
 class Fake:
     def __init__(self, server, **kw):
         self.server = server
@@ -27,14 +30,16 @@ class Fake:
         if o == "oserror":
             raise OSError("x")
         if o == "othererror":
-            raise Boom("y")
+            # an error that is not a failure of the server: an arbitrary exception, or one of memcached's "bad request" answers
+            raise OTHER_ERRORS[(i + int(CLOCK[0])) % len(OTHER_ERRORS)]("y")
 
     def close(self):
         pass
 
     def get(self, key, default=None, **kw):
         self._do()
-        return "v"
+        # a successful exchange may well be a miss (a server that came back with an empty cache): then the caller's default is the answer
+        return default if (self.server[1] + int(CLOCK[0])) % 2 == 0 else "v"
 
     def set(self, key, value, *a, **kw):
         self._do()
@@ -119,7 +124,8 @@ class Runner:
                 if op in ("c", "set", "delete"):
                     if op == "c":
                         r = c.get(ks[0], default="DEF")
-                        res = "default" if r == "DEF" else "value"
+                        # "value" = the answer of a successful exchange (a hit or a miss); "default" = no server gave an answer
+                        res = "value" if (LOG and LOG[-1][2] == "ok") else "default"
                     elif op == "set":
                         r = c.set(ks[0], b"v")
                         res = "default" if r is False else "value"
@@ -137,7 +143,7 @@ class Runner:
                     res = "multi:" + "".join("0" if k in r else "1" for k in ks)
             except OSError:
                 res = "raise:%d:oserror" % LOG[-1][0] if LOG else "raise:?:oserror"
-            except Boom:
+            except tuple(OTHER_ERRORS):
                 res = "raise:%d:othererror" % LOG[-1][0] if LOG else "raise:?:othererror"
             except self.ME:
                 res = "alldown"
@@ -172,6 +178,7 @@ def monitor(ctx, cfg, n, evs, lines, logs, case_tags, snaps=None):
         # recovery: a dead record older than two dead_timeouts does not survive the next routed call (unless the server fails again in that call)
         ever_failed = set()
         prev_dead = {}
+        since_ok, evicted_before = {}, set()
         for j, ((now, oserr, other, op, keys), lg, sn) in enumerate(zip(evs, logs, snaps)):
             if op in ("c", "set", "delete") and keys:
                 p = keys[0][0]
@@ -188,6 +195,19 @@ def monitor(ctx, cfg, n, evs, lines, logs, case_tags, snaps=None):
                         return
             ever_failed |= {x for x, _, o in lg if o == "oserror"}
             prev_dead = sn["dead"]
+            # a single failure does not take a server out when retries are configured - "single" counted since its last successful exchange, up to
+            # the beginning of the call that takes it out (with retries configured a server is only ever taken out at the start of a call)
+            if ra >= 1:
+                for x in range(n):
+                    # (delete_many is several key-addressed calls in one event: failures of its earlier keys count too)
+                    in_event = sum(1 for y, _, o in lg if y == x and o == "oserror") if op == "dm" else 0
+                    if x not in sn["nodes"] and x not in evicted_before and since_ok.get(x, 0) + in_event <= 1:
+                        ctx.violation(f"server {x} was taken out of rotation after {since_ok.get(x, 0)} failed contact(s) since its last successful exchange, although retries are configured",
+                                      dict(case, event=j, rotation=sn["nodes"]), tags=tags + ["single-failure-evicts"])
+                        return
+            for x, _, o in lg:
+                since_ok[x] = 0 if o == "ok" else since_ok.get(x, 0) + (1 if o == "oserror" else 0)
+            evicted_before = {x for x in range(n) if x not in sn["nodes"]}
     if rt >= dt:
         return
     # contacts per server over the whole history
@@ -225,6 +245,9 @@ def main(argv):
 
     FakeTime = FakeClock(lambda: CLOCK[0])
     H.time = FakeTime
+    from pymemcache.exceptions import MemcacheClientError, MemcacheIllegalInputError, MemcacheServerError, MemcacheUnknownError
+    del OTHER_ERRORS[1:]
+    OTHER_ERRORS.extend([MemcacheClientError, MemcacheIllegalInputError, MemcacheUnknownError, MemcacheServerError])
     R = Runner(H, MemcacheError)
     rng = ctx.rng
     depth = 7 if not ctx.thorough else 9
